@@ -8,6 +8,7 @@ import (
 	"math/big"
 	"os"
 	"path/filepath"
+	"runtime"
 	"sort"
 	"strconv"
 	"strings"
@@ -412,6 +413,8 @@ func (s *Session) newInterp(ob *Obligation, r *ObResult, sol *Solver, decisions 
 	return in
 }
 
+type engineCrash struct{ msg string }
+
 // runPath executes the harness once along the current decision prefix.
 func (in *Interp) runPath() (end pathEnd, gp *goPanic) {
 	defer func() {
@@ -423,7 +426,12 @@ func (in *Interp) runPath() (end pathEnd, gp *goPanic) {
 				gp = x
 				end = pathEnd{"panic", x.msg}
 			default:
-				panic(r)
+				if _, ok := r.(engineCrash); ok {
+					panic(r)
+				}
+				buf := make([]byte, 6000)
+				n := runtime.Stack(buf, false)
+				panic(engineCrash{fmt.Sprintf("%v\ninterpreted stack:%s\nhost stack:\n%s", r, in.unsupported("").msg, buf[:n])})
 			}
 		}
 	}()
@@ -570,6 +578,15 @@ func (in *Interp) addViolation(v *Violation) {
 
 func (in *Interp) checkAssert(c *Term, label string) {
 	r := in.r
+	if in.dpos < len(in.decisions) && in.concrete == nil {
+		// replayed prefix: this assertion instance was decided, under the identical path
+		// condition, by the path that first went through here
+		if c.IsFalse() {
+			panic(pathEnd{"done", "assertion cannot hold on this path"})
+		}
+		in.assume(c)
+		return
+	}
 	r.Asserts++
 	if c.IsTrue() {
 		r.Discharged++
